@@ -374,27 +374,30 @@ func not(ctx *context, args []Datum) (retBool Datum) {
 	return NewBoolDatum(!bool0)
 }
 
+// xpathRound implements XPath 1.0 section 4.4 round(): the closest integer,
+// ties going towards positive infinity; NaN, the infinities and both zeros are
+// returned unchanged, and anything in [-0.5, 0) becomes negative zero.
+func xpathRound(num float64) float64 {
+	switch {
+	case math.IsNaN(num) || math.IsInf(num, 0) || num == 0:
+		return num
+	case num < 0 && num >= -0.5:
+		return math.Copysign(0, -1)
+	}
+	rounded := math.Floor(num)
+	if num-rounded >= 0.5 {
+		rounded++
+	}
+	return rounded
+}
+
 func round(ctx *context, args []Datum) (retNum Datum) {
 	ctx.verifyArgNumAndTypes("round",
 		args, []DatumTypeChecker{TypeIsNumber})
 
 	num0 := args[0].Number("round()")
 
-	// XPath 1.0 section 4.4: the closest integer, ties going towards positive
-	// infinity; NaN, the infinities and both zeros are returned unchanged,
-	// and anything in [-0.5, 0) becomes negative zero.
-	switch {
-	case math.IsNaN(num0) || math.IsInf(num0, 0) || num0 == 0:
-		return NewNumDatum(num0)
-	case num0 < 0 && num0 >= -0.5:
-		return NewNumDatum(math.Copysign(0, -1))
-	}
-	rounded := math.Floor(num0)
-	if num0-rounded >= 0.5 {
-		rounded++
-	}
-
-	return NewNumDatum(rounded)
+	return NewNumDatum(xpathRound(num0))
 }
 
 func position(ctx *context, args []Datum) (retNum Datum) {
@@ -437,32 +440,20 @@ func substring(ctx *context, args []Datum) (retLit Datum) {
 	num1 := args[1].Number("substring()")
 	num2 := args[2].Number("substring()")
 
-	substrLen := len(lit0)
-	if substrLen == 0 {
-		return NewLiteralDatum("")
+	// XPath 1.0 section 4.2: the characters (not bytes) at the 1-based
+	// positions p with round(start) <= p < round(start) + round(length).
+	// NaN makes both comparisons false; infinities need no special casing.
+	first := xpathRound(num1)
+	limit := first + xpathRound(num2)
+	var b strings.Builder
+	pos := 0.0
+	for _, r := range lit0 {
+		pos++
+		if pos >= first && pos < limit {
+			b.WriteRune(r)
+		}
 	}
-
-	// NB: XPATH uses 1 as first index in string, not zero, so we have to
-	//     subtract one here.  We also need to ensure both start and end Pos
-	//     are >= 0.
-	startPos := int(math.Trunc(num1+0.5)) - 1
-	endPos := int(math.Trunc(num2+0.5)) + startPos
-	if startPos < 0 {
-		// Only do this AFTER calculating endPos as the spec says we calculate
-		// length based on the rounded difference of the two params.
-		startPos = 0
-	}
-	if startPos >= substrLen {
-		return NewLiteralDatum("")
-	}
-	if endPos < 0 {
-		endPos = 0
-	}
-	if endPos > substrLen {
-		endPos = substrLen
-	}
-	substr := lit0[startPos:endPos]
-	return NewLiteralDatum(substr)
+	return NewLiteralDatum(b.String())
 }
 
 func substringAfter(ctx *context, args []Datum) (retLit Datum) {
